@@ -105,9 +105,35 @@ def gen_compute_unique_slug(src: str) -> str:
     fn = find_function(ast.parse(src), "compute_unique_slug")
     if [a.arg for a in fn.args.args] != ["token_tree", "slugs", "slug_func"]:
         raise Untranslatable("compute_unique_slug signature")
-    ex = Expr({"title": "str", "base_slug": "str", "slug": "str", "i": "N", "slugs": "strs"},
-              "inline_token.children or []", slug_call="slug_func")
-    w = Walk(ex, fuel="S (length slugs)", skip=["tokens = token_tree.to_tokens()", "inline_token = tokens[1]"])
+    # local names are free: types are inferred from the defining expressions
+    ex = Expr({"slugs": "strs"}, "<unknown>", slug_call="slug_func")
+    names = {}
+
+    def hook(s, rest, w):
+        if isinstance(s, ast.Assign) and len(s.targets) == 1 and isinstance(s.targets[0], ast.Name):
+            n, v = s.targets[0].id, ast.unparse(s.value)
+            if v == "token_tree.to_tokens()":
+                names["tokens"] = n
+                return w.block(rest)
+            if "tokens" in names and v == names["tokens"] + "[1]":
+                ex.children_expr = n + ".children or []"      # the inline token of the heading
+                return w.block(rest)
+        # record the types of the locals as they are defined
+        if isinstance(s, ast.Assign) and all(isinstance(t, ast.Name) for t in s.targets):
+            v = s.value
+            ty = None
+            if isinstance(v, ast.Constant) and isinstance(v.value, int):
+                ty = "N"
+            elif isinstance(v, (ast.JoinedStr,)) or (isinstance(v, ast.Call) and (ast.unparse(v.func) in ("slug_func",) or
+                                                     (isinstance(v.func, ast.Attribute) and v.func.attr == "join"))):
+                ty = "str"
+            elif isinstance(v, ast.Name) and v.id in ex.types:
+                ty = ex.types[v.id]
+            if ty:
+                for t in s.targets:
+                    ex.types[t.id] = ty
+        return None
+    w = Walk(ex, fuel="S (length slugs)", stmt_hook=hook)
     body = w.block(list(fn.body))
     return ("Definition compute_unique_slug_src (default_slugify : str -> res str) (children : list (ttype * str))\n"
             "  (slugs : list str) (slug_func : option (str -> res str)) : res str :=\n" + body + ".\n")
@@ -115,10 +141,12 @@ def gen_compute_unique_slug(src: str) -> str:
 
 def add_hook(s, rest, w):
     # slugs.add(uniq); return uniq   ->  Ok (uniq, uniq :: slugs)
-    if isinstance(s, ast.Expr) and ast.unparse(s) == "slugs.add(uniq)":
-        if len(rest) != 1 or ast.unparse(rest[0]) != "return uniq":
+    if isinstance(s, ast.Expr) and isinstance(s.value, ast.Call) and ast.unparse(s.value.func) == "slugs.add" \
+            and len(s.value.args) == 1 and isinstance(s.value.args[0], ast.Name):
+        x = s.value.args[0].id
+        if len(rest) != 1 or ast.unparse(rest[0]) != "return " + x:
             raise Untranslatable("unique_slug tail")
-        return "Ok (uniq, uniq :: slugs)"
+        return f"Ok ({x}, {x} :: slugs)"
     return None
 
 
@@ -126,8 +154,21 @@ def gen_unique_slug(src: str) -> str:
     fn = find_function(ast.parse(src), "unique_slug")
     if [a.arg for a in fn.args.args] != ["slug", "slugs"]:
         raise Untranslatable("unique_slug signature")
-    ex = Expr({"slug": "str", "uniq": "str", "i": "N", "slugs": "strs"}, "<none>")
-    w = Walk(ex, fuel="S (length slugs)", stmt_hook=add_hook)
+    ex = Expr({"slug": "str", "slugs": "strs"}, "<none>")
+
+    def hook(s, rest, w):
+        r = add_hook(s, rest, w)
+        if r is not None:
+            return r
+        if isinstance(s, ast.Assign) and all(isinstance(t, ast.Name) for t in s.targets):
+            v = s.value
+            ty = "N" if isinstance(v, ast.Constant) and isinstance(v.value, int) else \
+                "str" if isinstance(v, ast.JoinedStr) else ex.types.get(v.id) if isinstance(v, ast.Name) else None
+            if ty:
+                for t in s.targets:
+                    ex.types[t.id] = ty
+        return None
+    w = Walk(ex, fuel="S (length slugs)", stmt_hook=hook)
     body = w.block(list(fn.body))
     return ("Definition unique_slug_src (slug : str) (slugs : list str) : res (str * list str) :=\n" + body + ".\n")
 
